@@ -38,6 +38,10 @@ pub enum Sz {
     N(u32),
     /// the byte image of a CRC-valid frame (see damage::embedded_frame_payload)
     Emb,
+    /// filler up to the end of the first frame of the entry (when the entry starts at a block
+    /// start), then the byte image of a serialized WAL entry: the entry's second frame holds
+    /// exactly an entry image
+    EmbTail,
 }
 
 impl Sz {
@@ -51,6 +55,7 @@ impl Sz {
             Sz::XL => FILE + BLOCK / 2 + 12,
             Sz::N(n) => n as usize,
             Sz::Emb => crate::damage::embedded_frame_payload().len(),
+            Sz::EmbTail => crate::damage::embedded_tail_payload().len(),
         }
     }
 }
@@ -135,6 +140,9 @@ impl Resolver {
                         self.uniq += 1;
                         if *sz == Sz::Emb {
                             return Arc::from(crate::damage::embedded_frame_payload());
+                        }
+                        if *sz == Sz::EmbTail {
+                            return Arc::from(crate::damage::embedded_tail_payload());
                         }
                         payload(self.uniq, sz.len())
                     })
